@@ -1,3 +1,4 @@
 pub mod bigram;
 pub mod csv;
 pub mod dict;
+pub mod train;
